@@ -103,7 +103,7 @@ def eval_case(flex, workdir, prog, spec_text, flex_opts, inputs, fuel=30000, che
             with open(ipath, "wb") as f:
                 f.write(bytes(w))
             for sc in run_scs:
-                rc, out, err = run([os.path.join(workdir, "s.exe"), ipath, str(sc - 1)], timeout=20)
+                rc, out, err = run([os.path.join(workdir, "s.exe"), ipath, str(sc - 1)], timeout=8)
                 if rc != 0:
                     res['problems'].append(('scanner-abnormal', "rc=%s sc=%d input=%s stderr=%s" % (
                         rc, sc, hexs(w), err.decode(errors="replace")[:200])))
@@ -315,7 +315,7 @@ def eval_reject_case(flex, workdir, prog, policies, rng, flex_opts, inputs, back
             f.write(bytes(w))
         wsx = "(" + " ".join(str(b) for b in w) + ")"
         for sc in run_scs:
-            rc, out, err = run([os.path.join(workdir, "s.exe"), ipath, str(sc - 1)], timeout=20)
+            rc, out, err = run([os.path.join(workdir, "s.exe"), ipath, str(sc - 1)], timeout=8)
             if rc != 0:
                 res['problems'].append(('scanner-abnormal', "rc=%s sc=%d input=%s stderr=%s" % (rc, sc, hexs(w), err.decode(errors="replace")[:200])))
                 continue
